@@ -531,7 +531,17 @@ Definition ensure_pg (w : world) : world :=
 Definition leak (fixed : bool) (w : world) (init : bool) (s : status) : world :=
   if fixed then w else if init then set_st w (w_st w) s else w.
 
-Definition sync_job_gen (fixed : bool) (w : world) (u : updfn) (F : list fault) : world * bool * bool :=
+(* countJobPods ("fix: syncJob recounts the pods while the PodGroup is not admitted"): every pod the
+   controller sees, terminating if it is being deleted, else by its phase; the per-task table is a fresh map *)
+Definition recount (s : status) (view : list pod) : status :=
+  mkStatus (st_phase s) (st_retry s) (st_version s) (st_min s) (fst (tally view)) (snd (tally view))
+           (tsc_of_pods view) false (st_rundur s).
+Definition set_tscnil (s : status) (b : bool) : status :=
+  mkStatus (st_phase s) (st_retry s) (st_version s) (st_min s) (st_cnt s) (st_term s) (st_tsc s) b (st_rundur s).
+
+(* [fixed]: see [leak]; [pgfix = false]: the code before the recount fix, which in the
+   PodGroup-not-admitted branch wrote a phase change on top of whatever counters the status had *)
+Definition sync_job_gen (fixed pgfix : bool) (w : world) (u : updfn) (F : list fault) : world * bool * bool :=
   let sp0 := v_spec w in   (* the spec of the job object the state closure holds (ps.job.Job) *)
   if c_vdel (v_ctl w) then (w, false, false)          (* job is terminating: skip *)
   else if negb (c_queue (v_ctl w)) then (w, true, false)   (* GetQueueInfo fails *)
@@ -549,8 +559,10 @@ Definition sync_job_gen (fixed : bool) (w : world) (u : updfn) (F : list fault) 
     let nstat := if init then 1 else 0 in
     let w1 := ensure_pg w0 in
     if negb (pg_admitted (v_pg w1)) then
-      let s' := apply_upd u sp0 js in
-      if status_eq_dec s' js then (w1, false, init)
+      let jc := if pgfix then recount js (v_pods w1) else js in
+      let s' := apply_upd u sp0 jc in
+      (* equality.Semantic.DeepEqual: a nil and an empty TaskStatusCount are the same *)
+      if status_eq_dec (set_tscnil s' (st_tsc_nil js)) js then (w1, false, init)
       else if fails_status F nstat then (leak fixed w1 init s', true, init)
       else (write w1 s', false, true)
     else
@@ -563,8 +575,9 @@ Definition sync_job_gen (fixed : bool) (w : world) (u : updfn) (F : list fault) 
         if status_eq_dec js s' then (w2, false, init)
         else if fails_status F nstat then (leak fixed w2 init s', true, init)
         else (write w2 s', false, true).
-Definition sync_job := sync_job_gen true.
-Definition sync_job_prefix := sync_job_gen false.
+Definition sync_job := sync_job_gen true true.
+Definition sync_job_prefix := sync_job_gen false true.      (* before fix 1b25f56 (cache leak) *)
+Definition sync_job_pgprefix := sync_job_gen true false.    (* before the recount fix *)
 
 (* ---------- delayed actions: cancel / arm / clean up ---------- *)
 Definition key_eqb (a b : option (positive * Z)) : bool :=
